@@ -355,8 +355,8 @@ namespace {
         }
         Program const& prog = ctx.program;
         P.launch(kinds, [&prog, kinds](int i) { run_party(prog, i, kinds[(size_t) i] == PARTY_OS); });
-        sim_quiesce(2000000);
         while (!P.all_finished()) main_pause();
+        sim_quiesce(2000000);
         P.join_os();
         // ---- history checks
         for (int j = 0; j < MAXCB; j++)
